@@ -166,7 +166,9 @@ impl Check for C04 {
             }
             out.count(if *is_nested { "nested_permutations_compared" } else { "permutations_compared" }, 1);
             any_answers |= !r.answers.is_empty();
-            if let Cmp::Different(why) = compare_multisets(&base.answers, &r.answers, &uni) {
+            if cut_at_cap(base.ended, base.answers.len(), r.ended, r.answers.len()) {
+                out.count("comparisons_skipped_answer_cap", 1);
+            } else if let Cmp::Different(why) = compare_multisets(&base.answers, &r.answers, &uni) {
                 out.violate(
                     "M-meta",
                     if *is_nested { "reordering conjuncts/disjuncts changes the answer multiset" } else { "reordering the conjunction changes the answer multiset" },
